@@ -124,7 +124,7 @@ theorem session_records (ms : Markets) (k : Nat) (cfg : SessionCfg) (start : Nat
     (hok : (runSession ms k cfg start tapes).ok = true) :
     ∃ mid, (runSession ms k cfg start tapes).tr =
       [Ev.hookSessionBefore k start, Ev.sessionBegin k, Ev.flush] ++ mid ++
-      [Ev.hookSessionAfter k (start + cfg.steps - 1), Ev.sessionEnd k, Ev.flush] := by
+      [Ev.hookSessionAfter k (((start + cfg.steps : Nat) : Int) - 1), Ev.sessionEnd k, Ev.flush] := by
   unfold runSession at hok ⊢
   by_cases h : (runSteps ms cfg start cfg.execution tapes cfg.steps).ok = true
   · simp only [h, ↓reduceIte]
